@@ -146,7 +146,7 @@ pub fn tls(args: &[&str]) -> Option<Vec<String>> {
     let hello = ClientId::Domain("c.example".into());
     let result = match client {
         "s" => {
-            let mut b = SmtpTransport::builder_dangerous("127.0.0.1")
+            let mut b = SmtpTransport::builder_dangerous(crate::util::lo())
                 .port(port)
                 .hello_name(hello)
                 .timeout(Some(Duration::from_secs(3)))
@@ -164,7 +164,7 @@ pub fn tls(args: &[&str]) -> Option<Vec<String>> {
         "a" => {
             let rt = tokio::runtime::Builder::new_multi_thread().worker_threads(2).enable_all().build().ok()?;
             rt.block_on(async {
-                let mut b = AsyncSmtpTransport::<Tokio1Executor>::builder_dangerous("127.0.0.1")
+                let mut b = AsyncSmtpTransport::<Tokio1Executor>::builder_dangerous(crate::util::lo())
                     .port(port)
                     .hello_name(hello)
                     .timeout(Some(Duration::from_secs(3)))
